@@ -323,7 +323,7 @@ func genStyled(g *vh.Gen) string {
 		v = strings.NewReplacer(" ", "&#32;", ">", "&gt;", "\t", "&#9;", "\n", "&#10;", "\r", "&#13;", "\f", "&#12;").Replace(v)
 	}
 	if g.Chance(0.2) {
-		v = strings.ReplaceAll(v, ";", g.Pick("&#59;", "&semi;", "&#x3b;", ";"))
+		v = strings.ReplaceAll(v, ";", g.Pick("&#59;", "&semi;", "&#x3b;", ";", encRef(g, ';', 2), encRef(g, ';', 3)))
 	}
 	if g.Chance(0.1) {
 		v = strings.ReplaceAll(v, ":", g.Pick("&#58;", "&colon;", "&#x3A;"))
@@ -366,6 +366,89 @@ func genLink(g *vh.Gen) string {
 	}
 	extra := g.Pick("", "", " rel=\"x\"", " rel=\"nofollow noopener\"", " target=\"_blank\"", " target=_top", " title=\"t\"", " "+attr+"=\"http://second/\"", " crossorigin=x")
 	return "<" + el + g.Pick(" ", " ", "\n", "/") + attr + "=" + q + u + q + extra + g.Pick(">", ">", "/>", " >") + "x</" + el + ">"
+}
+
+// encRef writes the character c as a character reference (decimal, hex or named; with or
+// without the terminating semicolon — then followed by a blank so that it still ends), and
+// escapes the ampersand itself depth-1 more times (&amp; / &#38; / &#x26;): depth 1 is a plain
+// reference, depth 2 a double-encoded one that survives ONE entity decoding as a reference.
+func encRef(g *vh.Gen, c byte, depth int) string {
+	named := map[byte][]string{';': {"&semi;"}, ':': {"&colon;"}, '\'': {"&apos;", "&#39;"}, '"': {"&quot;", "&QUOT;", "&quot"}, '<': {"&lt;", "&lt", "&LT;"},
+		'>': {"&gt;", "&gt"}, '&': {"&amp;", "&amp", "&AMP;"}, '\t': {"&Tab;"}, '\n': {"&NewLine;"}, '(': {"&lpar;"}, ')': {"&rpar;"}, ' ': {"&#32;"}, '/': {"&sol;"}, '\\': {"&bsol;"}}
+	var r string
+	switch g.Intn(7) {
+	case 0:
+		r = "&#" + vh.I(int(c)) + ";"
+	case 1:
+		r = "&#" + vh.I(int(c)) + " "
+	case 2:
+		r = "&#x" + strconvHex(c) + ";"
+	case 3:
+		r = "&#X" + strings.ToUpper(strconvHex(c)) + " "
+	case 4:
+		r = "&#0000" + vh.I(int(c)) + ";"
+	default:
+		if ns, ok := named[c]; ok {
+			r = ns[g.Intn(len(ns))]
+		} else {
+			r = "&#" + vh.I(int(c)) + ";"
+		}
+	}
+	for d := 1; d < depth; d++ {
+		r = strings.ReplaceAll(r, "&", g.Pick("&amp;", "&amp;", "&#38;", "&#x26;", "&AMP;", "&amp"))
+	}
+	return r
+}
+
+func encDepth(g *vh.Gen) int {
+	switch g.Intn(6) {
+	case 0:
+		return 1
+	case 1:
+		return 3
+	default:
+		return 2
+	}
+}
+
+// genDoubleEnc: attribute values holding multiply encoded character references — in a style
+// value the separator after an allow-listed declaration (or the quote closing a CSS string) is
+// only a separator after a SECOND entity decoding; likewise the scheme colon of a URL, the
+// angle brackets of a title. The decoded value holds no literal quote or angle bracket.
+func genDoubleEnc(g *vh.Gen) string {
+	tag := g.Pick("p", "div", "span", "td", "a", "img", "center", "b", "table")
+	okv := g.Pick("red", "1px", "none", "0", "bold", "10pt solid", "center")
+	bad := g.Pick("position:fixed", "z-index:99999", "behavior:url(x.htc)", "top:0;left:0", "-moz-binding:url(x)", "background:url(//e/x)", "float:left", "opacity:0")
+	d := encDepth(g)
+	var style string
+	switch g.Intn(5) {
+	case 0, 1, 2:
+		style = g.Pick(allowedProps...) + ":" + okv + encRef(g, ';', d) + g.Pick("", " ") + bad + g.Pick("", ";", ";top:0;left:0")
+	case 3: // the apostrophe closing a CSS string is a reference
+		style = "font-family:'a" + encRef(g, '\'', d) + ";" + bad + ";'"
+	default: // colon and separator both encoded
+		style = g.Pick(allowedProps...) + ":" + okv + encRef(g, ';', d) + " " + strings.Replace(bad, ":", encRef(g, ':', encDepth(g)), 1)
+	}
+	attr := g.Pick("style", "style", "style", "STYLE", "Style")
+	q := g.Pick("\"", "\"", "'")
+	if q == "'" {
+		style = strings.ReplaceAll(style, "'", "&#39;")
+	}
+	var extra string
+	switch g.Intn(6) {
+	case 0:
+		extra = " href=\"java" + encRef(g, 's', encDepth(g)) + "cript" + encRef(g, ':', encDepth(g)) + "alert(1)\""
+	case 1:
+		extra = " title=\"" + encRef(g, '<', encDepth(g)) + "script" + encRef(g, '>', encDepth(g)) + "\""
+	case 2:
+		extra = " alt=\"a" + encRef(g, '"', encDepth(g)) + " onerror=" + encRef(g, '"', encDepth(g)) + "x\" src=\"http://x/" + encRef(g, '&', encDepth(g)) + "a=1\""
+	case 3:
+		extra = " href=\"http://x/?a=1" + encRef(g, '&', encDepth(g)) + "b=2\" title='" + encRef(g, '&', 3) + "'"
+	}
+	if g.Chance(0.5) {
+		return "<" + tag + extra + " " + attr + "=" + q + style + q + ">x</" + tag + ">"
+	}
+	return "<" + tag + " " + attr + "=" + q + style + q + extra + ">x</" + tag + ">"
 }
 
 // genLong builds a document holding ONE very long token of about n bytes (kind selects which
@@ -484,8 +567,10 @@ func gen(g *vh.Gen) {
 			s = randOver(g, htmlAlphabet, 24)
 		case i%10 >= 7:
 			s = mutate(g, genHTML(g), "<>\"'=/ &;\x00")
-		case i%10 >= 5:
+		case i%10 >= 6:
 			s = genStyled(g)
+		case i%10 == 5:
+			s = genDoubleEnc(g)
 		case i%10 >= 3:
 			s = genLink(g)
 		default:
@@ -515,9 +600,12 @@ func gen(g *vh.Gen) {
 	}
 	for i := 0; i < g.N(1000, 50000); i++ {
 		var h string
-		if i%2 == 0 {
+		switch i % 5 {
+		case 0, 1:
 			h = genHTML(g)
-		} else {
+		case 2:
+			h = genDoubleEnc(g)
+		default:
 			h = genStyled(g)
 		}
 		g.Emit("msg", vh.HS(validUTF8(h)), vh.HS(validUTF8(genPlain(g))))
